@@ -105,7 +105,7 @@ theorem invC_step {s s' : State κ ν} {a : Label κ ν} (h : InvC s)
     (hst : step fixedCfg s a = some s') : InvC s' := by
   unfold InvC at *
   cases a <;> step_cases hst <;> (try (simp only [process]; split)) <;> (try split) <;>
-    (first | grind | (simp_all [halfMs]; grind))
+    (first | grind | (simp_all [halfMs, Kit.Generated.C06.runNowMarginNs]; grind))
 
 theorem invC {s : State κ ν} (hr : Reach (lts fixedCfg) s) : InvC s := by
   induction hr with
